@@ -42,7 +42,10 @@ Inductive call :=
 | CGetSlice (name : string) (start n : Z)
 | CGetData (name : string) (ff fs nf ns szr : Z)
 | CAddConst (name : string) (frag : Z) (v : Z)
-| CDelete (name : string).
+| CDelete (name : string)
+| CRename (name newname : string)            (* gd_rename(name, newname, 0), name.c *)
+| CMove (name : string) (frag : Z)           (* gd_move(name, frag, 0), move.c *)
+| CAlterCarray (name : string) (len : Z).    (* gd_alter_carray(name, GD_NULL, len), mod.c *)
 
 Fixpoint find (l : list entry) (name : string) : option entry :=
   match l with
@@ -75,6 +78,22 @@ Fixpoint remove_entry (l : list entry) (name : string) : list entry :=
   | [] => []
   | e :: r => if String.eqb (e_name e) name then r else e :: remove_entry r name
   end.
+
+Definition rename_entry (e : entry) (n : string) : entry :=
+  mkEntry n (e_kind e) (e_frag e) (e_vals e) (e_refs e).
+Definition move_entry (e : entry) (g : Z) : entry :=
+  mkEntry (e_name e) (e_kind e) g (e_vals e) (e_refs e).
+Fixpoint resize (l : list Z) (n : nat) : list Z :=
+  match n with
+  | O => []
+  | S k => match l with [] => 0 :: resize [] k | x :: r => x :: resize r k end
+  end.
+Fixpoint replace_named (l : list entry) (name : string) (e' : entry) : list entry :=
+  match l with
+  | [] => []
+  | e :: r => if String.eqb (e_name e) name then e' :: r else e :: replace_named r name e'
+  end.
+Definition E_ALLOC := -7.
 
 Definition referenced (l : list entry) (name : string) : bool :=
   existsb (fun e => existsb (String.eqb name) (e_refs e)) l.
@@ -160,6 +179,40 @@ Section Step.
         else if fmt_protected s (e_frag e) then (s, Err E_PROTECTED)
         else if referenced (s_ents s) name then (s, Err E_DELETE)
         else (set_ents s (remove_entry (s_ents s) name), Ok 0)
+      end
+    | CRename name newname =>
+      if negb (s_rw s) then (s, Err E_ACCMODE)
+      else match find (s_ents s) name with
+      | None => (s, Err E_BAD_CODE)
+      | Some e =>
+        if fmt_protected s (e_frag e) then (s, Err E_PROTECTED)
+        else if String.eqb name newname then (s, Ok 0)
+        else match find (s_ents s) newname with
+        | Some _ => (s, Err E_DUPLICATE)
+        | None => (set_ents s (replace_named (s_ents s) name (rename_entry e newname)), Ok 0)
+        end
+      end
+    | CMove name frag =>
+      match find (s_ents s) name with
+      | None => (s, Err E_BAD_CODE)
+      | Some e =>
+        if negb (fragment_guard frag (Z.of_nat (List.length (s_prot s)))) then (s, Err E_BAD_INDEX)
+        else if e_frag e =? frag then (s, Ok 0)
+        else if negb (s_rw s) then (s, Err E_ACCMODE)
+        else if fmt_protected s (e_frag e) || fmt_protected s frag then (s, Err E_PROTECTED)
+        else (set_ents s (replace_named (s_ents s) name (move_entry e frag)), Ok 0)
+      end
+    | CAlterCarray name len =>
+      if negb (s_rw s) then (s, Err E_ACCMODE)
+      else match find (s_ents s) name with
+      | None => (s, Err E_BAD_CODE)
+      | Some e =>
+        if fmt_protected s (e_frag e) then (s, Err E_PROTECTED)
+        else if negb (e_kind e =? K_CARRAY) then (s, Err E_BAD_FIELD_TYPE)
+        else if (len =? 0) || (len =? Z.of_nat (List.length (e_vals e))) then (s, Ok 0)
+        else if len >? SSIZE_MAX / 8 then (s, Err E_ALLOC)      (* size test added by fix C10-10 *)
+        else (set_ents s (replace_named (s_ents s) name
+                 (mkEntry (e_name e) (e_kind e) (e_frag e) (resize (e_vals e) (Z.to_nat len)) (e_refs e))), Ok 0)
       end
     end.
 
